@@ -919,6 +919,8 @@ impl<
         message: impl FnOnce(usize) -> String,
     ) {
         if let Some(start) = start {
+            #[cfg(feature = "verif_hooks")]
+            crate::verif_hooks::ess_step(&crate::verif_hooks::EssStep::Visit { forward, start });
             if forward {
                 self.forward_step_sum_sweep(start, pl, message);
             } else {
@@ -1188,6 +1190,10 @@ impl<
         pl.expected_updates(2 * self.scc.num_components() + self.num_nodes);
 
         let pivot = self.find_best_pivot(pl);
+        #[cfg(feature = "verif_hooks")]
+        crate::verif_hooks::ess_step(&crate::verif_hooks::EssStep::AllCcUpperBound {
+            pivots: &pivot,
+        });
 
         let (dist_pivot_f, mut ecc_pivot_f) = self.compute_dist_pivot(&pivot, true, pl);
         let components = self.scc.components();
